@@ -76,6 +76,15 @@ func main() {
 				fmt.Println("NOTE: helper expansion dropped: " + lastInline.Dropped)
 			}
 		}
+		if streamsOverlayDone && (len(lastInlineStreams.Expanded) > 0 || len(lastInlineStreams.Skipped) > 0 || lastInlineStreams.Dropped != "") {
+			res.Extra["helper_expansion_streams"] = lastInlineStreams
+			for _, e := range lastInlineStreams.Expanded {
+				fmt.Println("NOTE: expanded new helper " + e)
+			}
+			if lastInlineStreams.Dropped != "" {
+				fmt.Println("NOTE: helper expansion dropped: " + lastInlineStreams.Dropped)
+			}
+		}
 		if f := os.Getenv("VERIF_AUDIT_SUMMARY"); f != "" {
 			if b, err := os.ReadFile(f); err == nil {
 				var v interface{}
